@@ -333,6 +333,26 @@ def check_plot(rep, ix):
     # flush after the loop
     after = [s for s in f.body if isinstance(s, ast.For) and s is not lp and any(isinstance(x, ast.Call) and _n(x.func) == 'self._flushPolyLineBuffer' for x in ast.walk(s))]
     rep.ob('R-C19-PLOT', site, 'buffers are flushed after the last point', any(f.body.index(s) > f.body.index(lp) for s in after) if lp in f.body else False, node=f, module=m)
+    # the flush leaves the buffer empty whatever it held: a point left behind is joined to the next valid sample, drawing a line
+    # across the absent values in between
+    fl = ix.get_func(PL, 'Plot._flushPolyLineBuffer')
+    fsite = f'{PL}:Plot._flushPolyLineBuffer'
+    cp = fl.args.args[1].arg
+    g = cfgmod.CFG(fl)
+    resets = [s_ for s_ in g.stmts() if (isinstance(s_, ast.Assign) and _n(s_.targets[0]) == f'{cp}.buffer' and _n(s_.value) in ('[]', 'list()'))
+              or (isinstance(s_, ast.Expr) and _n(s_.value) in (f'{cp}.buffer.clear()', f'del{cp}.buffer[:]'))]
+    empties = {common.nfs(f'len({cp}.buffer) > 0'), common.nfs(f'len({cp}.buffer) != 0'), common.nfs(f'len({cp}.buffer) >= 1'), common.nfs(f'{cp}.buffer')}
+    ok = bool(resets)
+    why = f'{len(resets)} reset(s)'
+    if ok and g.path_avoiding(g.ENTRY, g.EXIT, set(resets), skip_exc=True):
+        # some path skips the reset: fine only if it is the path on which the buffer is already empty
+        for r_ in resets:
+            deps = [(show(nf(b.test)), lab) for b, lab in g.control_deps(r_) if isinstance(b, ast.If)]
+            if not (len(deps) == 1 and deps[0][1] == 'true' and deps[0][0] in empties):
+                ok = False
+                why = f'the reset depends on {deps}'
+    rep.ob('R-C19-PLOT', fsite, 'flushing always leaves the polyline buffer empty (the reset is skipped only when the buffer is empty already)', ok, found=why,
+           required=f'reset under `len({cp}.buffer) > 0` or unconditionally', node=fl, module=m)
 
 
 def check_precheck(rep, ix):
